@@ -70,7 +70,29 @@ def units_of(kind):
 
 
 def shards(tier):
-    return [{'a': a, 'b': b} for a in OPERANDS for b in OPERANDS]
+    out = [{'a': a, 'b': b} for a in OPERANDS for b in OPERANDS]
+    # the same enumeration in a process that has already simulated (complete, stopped and aborted runs): the diagonal
+    out += [{'a': a, 'b': a, 'disturbed': True} for a in OPERANDS if a not in ('int', 'float')]
+    return out
+
+
+def probe():
+    """A few operations (called from inside a running simulation's load function)."""
+    bad = []
+    try:
+        r = gu.TimeInterval(40, 'ms') - gu.TimeInterval(1, 'sec')
+        bad.append(f'TimeInterval(40 ms) - TimeInterval(1 sec) returned {r}')
+    except ValueError:
+        pass
+    r = gu.AngularSpeed(2, 'rad/s') * gu.Time(3, 'sec')
+    if type(r).__name__ != 'AngularPosition' or abs(si.q_si(r) - 6.0) > 1e-12:
+        bad.append(f'AngularSpeed * Time = {r!r}')
+    try:
+        gu.Length(1, 'm') + gu.Force(1, 'N')
+        bad.append('Length + Force accepted')
+    except TypeError:
+        pass
+    return bad
 
 
 def make(kind, value, unit):
@@ -175,8 +197,14 @@ def make_preconverted(kind, value, unit):
 
 def check_one(acc, op, ka, ua, va, kb, ub, vb, pre=False):
     case = {'kind': 'op', 'op': op, 'a': [ka, va, ua], 'b': [kb, vb, ub], 'pre': pre}
-    pair = f'{ka}{op}{kb}' + ('/operands-converted-in-place' if pre else '')
-    if pre:
+    pair = f'{ka}{op}{kb}' + ('/operands-converted-in-place' if pre in (True, 'inplace') else (f'/operands-are-{pre}-clones' if pre else ''))
+    if pre in ('copy', 'deepcopy', 'pickle'):
+        # the operands are clones of fresh quantities (copy.copy / copy.deepcopy / pickle round trip): equal objects, same laws
+        import copy
+        import pickle
+        clone = {'copy': copy.copy, 'deepcopy': copy.deepcopy, 'pickle': lambda q: pickle.loads(pickle.dumps(q))}[pre]
+        a, b = clone(make(ka, va, ua)), clone(make(kb, vb, ub))
+    elif pre:
         try:
             a, b = make_preconverted(ka, va, ua), make_preconverted(kb, vb, ub)
         except ValueError:
@@ -294,6 +322,14 @@ def check_laws(acc, ka, ua, va, kb, ub, vb):
 
 
 def run_shard(shard, tier):
+    if shard.get('disturbed'):
+        from gmc import sim
+        inside = sim.disturb_process(probe)
+        acc = run_shard({k: v for k, v in shard.items() if k != 'disturbed'}, tier)
+        for f in inside + probe():
+            acc.violation('C06/probe', 'kind and magnitude laws', {'kind': 'shard', 'shard': shard}, {'failure': f})
+        acc.relabel('/after-simulations-in-this-process', shard)
+        return acc
     acc = Acc()
     ka, kb = shard['a'], shard['b']
     va_list, vb_list = operand_values(ka, tier), operand_values(kb, tier)
@@ -309,6 +345,9 @@ def run_shard(shard, tier):
                     if (va == va_list[0] or vb == vb_list[0]) and not (ka in ('int', 'float') and kb in ('int', 'float')):
                         for op in OPS:
                             check_one(acc, op, ka, ua, va, kb, ub, vb, pre=True)
+                        how = ('copy', 'deepcopy', 'pickle')[(len(ua or '') + len(ub or '') + int(va == va_list[0])) % 3]
+                        for op in OPS:
+                            check_one(acc, op, ka, ua, va, kb, ub, vb, pre=how)
                     if same_family:
                         check_laws(acc, ka, ua, va, kb, ub, vb)
                     acc.nstates += 1
